@@ -26,7 +26,8 @@ import (
 )
 
 // vfC18Spec: what each thread does. "r:<file>" = Open+Walk+Read+Attributes (vfDumpFile) of a
-// corpus file; "f:<file>" = an Open that is expected to fail; "wd" = a writer session with
+// corpus file; "f:<file>" = an Open that is expected to fail; "ws:<n>" = a writer session creating
+// fixed-length string datasets of element size n; "wd" = a writer session with
 // attribute deletions, closed, reopened for modification, more deletions and writes; "w" = CreateForWrite + dataset + attributes + Close, then dump of the result.
 type vfC18Spec struct {
 	Threads []string `json:"threads"`
@@ -141,7 +142,44 @@ func vfC18WriteDel(path string) (string, error) {
 	return "written:" + path, nil
 }
 
+// vfC18WriteStrings is a writer session that creates fixed-length string datasets of the
+// given element size (contiguous and chunked) — element types whose description comes from
+// the package-level datatype registry.
+func vfC18WriteStrings(path string, size int) (string, error) {
+	fw, err := CreateForWrite(path, CreateTruncate)
+	if err != nil {
+		return "", err
+	}
+	vals := make([]string, 4)
+	for i := range vals {
+		vals[i] = strings.Repeat(string(rune('a'+i)), size)
+	}
+	for _, spec := range []struct {
+		name string
+		opts []DatasetOption
+	}{{"/s", []DatasetOption{WithStringSize(uint32(size))}}, {"/sc", []DatasetOption{WithStringSize(uint32(size)), WithChunkDims([]uint64{2})}}} {
+		ds, err := fw.CreateDataset(spec.name, String, []uint64{4}, spec.opts...)
+		if err != nil {
+			_ = fw.Close()
+			return "", err
+		}
+		if err := ds.Write(vals); err != nil {
+			_ = fw.Close()
+			return "", err
+		}
+	}
+	if err := fw.Close(); err != nil {
+		return "", err
+	}
+	return "written:" + path, nil
+}
+
 func vfC18Do(what string, idx int, scratch string) (string, error) {
+	if strings.HasPrefix(what, "ws:") {
+		var size int
+		fmt.Sscanf(what, "ws:%d", &size)
+		return vfC18WriteStrings(filepath.Join(scratch, fmt.Sprintf("c18ws%d.h5", idx)), size)
+	}
 	if what == "w" {
 		return vfC18Write(filepath.Join(scratch, fmt.Sprintf("c18w%d.h5", idx)))
 	}
@@ -490,6 +528,7 @@ func TestVerif_C18(t *testing.T) {
 		}
 	}
 	specs := []vfC18Spec{
+		{Threads: []string{"ws:3", "ws:7"}, Bound: bound - 1},
 		{Threads: []string{"wd", "r:" + x.name}, Bound: bound - 1},
 		{Threads: []string{"f:" + badPath("empty"), "r:" + x.name}, Bound: bound},
 		{Threads: []string{"f:" + badPath("short7"), "r:" + x.name}, Bound: bound},
